@@ -801,12 +801,23 @@ def shared_lines(codes, patterns):
 
 
 def codes_of(*funcs):
+    """Code objects of the named callables.  A name may have become a class in the tree under test
+    (a context manager rewritten as a class, say): then all its methods are traced."""
+    import inspect
+
     out = []
     for f in funcs:
+        if inspect.isclass(f):
+            for v in vars(f).values():
+                v = getattr(v, "__func__", v)
+                if inspect.isfunction(v):
+                    out.append(v.__code__)
+            continue
         f = getattr(f, "__func__", f)
         while hasattr(f, "__wrapped__"):
             f = f.__wrapped__
-        out.append(f.__code__)
+        if hasattr(f, "__code__"):
+            out.append(f.__code__)
     return out
 
 
